@@ -414,6 +414,10 @@ class Monitor:
             "buy": [(o.oid, o.rem) for o in mm.sorted_side(True)] if "C02" in self.on else None,
             "sell": [(o.oid, o.rem) for o in mm.sorted_side(False)] if "C02" in self.on else None,
             "crossed": self.model_crossed(mm),
+            # the session's execution switch as it reads when the round begins (a hook may have flipped it mid-batch)
+            "switch": (self.sim.current_session.with_order_execution
+                       if self.sim is not None and self.sim.current_session is not None else None),
+            "forced": bool(self.ext.get("forced")),
         }
         if self.driver == "B" or "C03" in self.on or "C01" in self.on:
             self.book_sigs.add((mm.book_sig(), market.is_running))
